@@ -623,3 +623,107 @@ Lemma ex_all :
   (p_events (eneed ex_events) (flat_map fmt_event ex_events) [] = Some ex_events /\
    length (flat_map fmt_event ex_events) = 77).
 Proof. split; [exact ex_term_wf|]. split; [exact ex_events_wf | exact ex_events_roundtrip]. Qed.
+
+(* ---------------------------------------------------------------- *)
+(* fuel adequacy: twice the number of tokens is always enough *)
+
+Lemma sep_by_length_ge {A} (sep : list A) (l : list (list A)) :
+  fold_right (fun x a => length x + a) 0 l + length sep * (length l - 1) = length (sep_by sep l).
+Proof.
+  induction l as [|x [|y l] IH]; [cbn; lia | cbn; lia |].
+  rewrite sep_by_more. rewrite !app_length. rewrite <- IH. cbn [fold_right length]. lia.
+Qed.
+
+Definition Pn (t : tterm) : Prop := wf_term t -> need t + 1 <= 2 * length (fmt_term t).
+
+Lemma cneed_bound c : Forall Pn c -> Forall wf_term c -> cneed c <= 2 * length (fmt_conj c).
+Proof.
+  induction c as [|t c IH]; intros HP HW; [cbn; lia|].
+  inversion HP as [|? ? Ht HP']; subst. inversion HW as [|? ? Wt HW']; subst.
+  specialize (Ht Wt). specialize (IH HP' HW'). cbn [cneed].
+  destruct c as [|t2 c'].
+  - unfold fmt_conj. cbn [map sep_by cneed]. lia.
+  - unfold fmt_conj in *. cbn [map]. rewrite sep_by_more. rewrite !app_length. cbn [map] in IH. cbn [length]. lia.
+Qed.
+
+Lemma vneed_bound vs : Forall (Forall Pn) vs -> Forall val_ok vs -> vneed vs <= 2 * length (vtoks vs) + 1.
+Proof.
+  induction vs as [|v vs IH]; intros HP HW; [cbn; lia|].
+  inversion HP as [|? ? Hv HP']; subst. inversion HW as [|? ? [_ Wv] HW']; subst.
+  pose proof (cneed_bound v Hv Wv) as Bv. specialize (IH HP' HW'). cbn [vneed].
+  destruct vs as [|v2 vs'].
+  - unfold vtoks. cbn [map sep_by vneed]. lia.
+  - unfold vtoks in *. cbn [map]. rewrite sep_by_more. rewrite !app_length. cbn [map] in IH. cbn [length]. lia.
+Qed.
+
+Lemma fneed_bound feats : Forall (fun pc => Forall Pn (snd pc)) feats -> Forall feat_ok feats ->
+  fneed feats <= 2 * length (sep_by [KComma] (map ftoks feats)).
+Proof.
+  induction feats as [|[p c] feats IH]; intros HP HW; [cbn; lia|].
+  inversion HP as [|? ? Hc HP']; subst. inversion HW as [|? ? [[Hp _] [_ Wc]] HW']; subst. cbn [fst snd] in *.
+  pose proof (cneed_bound c Hc Wc) as Bc. specialize (IH HP' HW'). cbn [fneed snd].
+  assert (Hpl : 1 <= length (path_toks p)).
+  { destruct p as [|a p']; [contradiction Hp; reflexivity|]. rewrite path_toks_shape. cbn [length]. lia. }
+  assert (Hft : length (ftoks (p, c)) = length (path_toks p) + length (fmt_conj c)).
+  { unfold ftoks. cbn [fst snd]. apply app_length. }
+  destruct feats as [|pc2 feats'].
+  - cbn [map sep_by fneed]. rewrite Hft. lia.
+  - cbn [map]. rewrite sep_by_more. rewrite !app_length. cbn [map] in IH. rewrite Hft. cbn [length]. lia.
+Qed.
+
+Theorem need_bound : forall t, Pn t.
+Proof.
+  apply tterm_ind2; unfold Pn.
+  - intros d s _. destruct d; cbn; lia.
+  - intros d s _. destruct d; cbn; lia.
+  - intros d s _. destruct d; cbn; lia.
+  - intros d s _. destruct d; cbn; lia.
+  - intros d feats HF W. inversion W as [| | | |? ? Hfe| | |]; subst. rewrite need_avm.
+    pose proof (fneed_bound feats HF Hfe) as B.
+    cbn [fmt_term]. rewrite app_length. cbn [length]. rewrite app_length. cbn [length].
+    change (sep_by [KComma] (map (fun pc : list str * list tterm => path_toks (fst pc) ++ sep_by [KAmp] (map fmt_term (snd pc))) feats))
+      with (sep_by [KComma] (map ftoks feats)). lia.
+  - intros d vs e dt HV HD W. rewrite need_cons.
+    assert (Hvals : Forall val_ok vs) by (inversion W; subst; assumption).
+    pose proof (vneed_bound vs HV Hvals) as B.
+    assert (Bd : match dt with Some c => S (cneed c) <= 2 * length (fmt_conj c) + 1 | None => True end).
+    { destruct dt as [c|]; [|exact I]. inversion W; subst. pose proof (cneed_bound c HD ltac:(assumption)). lia. }
+    cbn [fmt_term]. rewrite app_length. cbn [length]. rewrite app_length. cbn [length].
+    change (sep_by [KComma] (map (fun c : list tterm => sep_by [KAmp] (map fmt_term c)) vs)) with (vtoks vs).
+    destruct e; [destruct dt as [c|]|].
+    + rewrite app_length. cbn [length]. change (sep_by [KAmp] (map fmt_term c)) with (fmt_conj c). lia.
+    + lia.
+    + destruct vs as [|v vs']; [cbn; destruct dt; [inversion W|]; cbn; lia|].
+      rewrite app_length. cbn [length]. inversion W; subst. lia.
+  - intros d vs HV W. rewrite need_diff.
+    assert (Hvals : Forall val_ok vs) by (inversion W; subst; assumption).
+    pose proof (vneed_bound vs HV Hvals) as B.
+    cbn [fmt_term]. rewrite app_length. cbn [length]. rewrite app_length. cbn [length].
+    change (sep_by [KComma] (map (fun c : list tterm => sep_by [KAmp] (map fmt_term c)) vs)) with (vtoks vs). lia.
+Qed.
+
+Lemma cneed_bound_wf c : Forall wf_term c -> cneed c <= 2 * length (fmt_conj c).
+Proof. intros H. apply cneed_bound; [|exact H]. apply Forall_forall. intros t _. apply need_bound. Qed.
+
+Lemma event_need_bound e : wf_event e -> S (cneed (ev_conj e)) <= 2 * length (fmt_event e).
+Proof.
+  destruct e as [i c d|i c d|i a ps c d|l v cs|t st|t|s|s|s]; cbn [wf_event ev_conj fmt_event]; intros W;
+    try (cbn; lia).
+  - destruct W as [_ [Hw _]]. pose proof (cneed_bound_wf c Hw). rewrite !app_length. cbn [length]. lia.
+  - destruct W as [Hw _]. pose proof (cneed_bound_wf c Hw). rewrite !app_length. cbn [length]. lia.
+  - destruct W as [_ [_ Hw]]. pose proof (cneed_bound_wf c Hw). rewrite !app_length. cbn [length]. lia.
+Qed.
+
+Lemma eneed_bound evs : Forall wf_event evs -> eneed evs <= 2 * length (flat_map fmt_event evs) + 1.
+Proof.
+  induction evs as [|e evs IH]; intros H; [cbn; lia|].
+  inversion H as [|? ? We H']; subst. specialize (IH H'). pose proof (event_need_bound e We).
+  cbn [eneed flat_map]. rewrite app_length. lia.
+Qed.
+
+(* the fuel the correspondence check uses is always adequate *)
+Theorem events_ok_tokens evs envs : Forall wf_event evs -> env_run evs envs <> None ->
+  p_events (2 * length (flat_map fmt_event evs) + 2) (flat_map fmt_event evs) envs = Some evs.
+Proof.
+  intros HW Hrun. apply events_ok; [exact HW | exact Hrun |]. pose proof (eneed_bound evs HW). lia.
+Qed.
